@@ -8,7 +8,7 @@ hprop.install(globals(), hprop.HistoryProperty(
     monitors=lambda: [C17Assignment()],
     profile=profile(nv=(2, 6), n_requests=(8, 40), timeouts=[300, 600, 600], socs=[0.0005, 0.002, 0.004, 0.01, 0.05, 0.3, 0.5, 0.9, 0.9],
                     builtin=[False, True, True], mechs=["leaf_50", "tiny_bev", "tiny_bev", "toyota_corolla", "tiny_ice", "tiny_ice"],
-                    n_scripted=[0, 1, 1, 2, 3], fleets=[0, 1, 2, 2, 3], human_share=[False, False, True]),
+                    n_scripted=[0, 1, 1, 2, 3], fleets=[0, 1, 2, 2, 3], human_share=[False, True]),
     nontrivial=lambda f: "dispatched_vehicle_redirected" in f and bool(f & {"ran_empty_while_dispatched", "request_redispatched"}),
     rule=("stateful histories over generated worlds with near-empty vehicles, re-dispatch, interruption by every instruction type, "
           "double dispatch, cancellations and requests injected co-simulation style through simulation_state_ops (also at simulation time 0, before the first step); built-in dispatcher alone in a third of the cases; after every step and single-instruction "
@@ -16,7 +16,7 @@ hprop.install(globals(), hprop.HistoryProperty(
           "dispatched (no scripted controller named it, no client re-offered it) has two vehicles travelling to it - judged on the state after the step and on the dispatcher's recorded input and output, also while a clumsy controller sends refusable instructions to vehicles under way (meddle rule). non-trivial = a dispatched vehicle "
           "was redirected AND (a vehicle ran empty while dispatched OR a re-offered request was dispatched again); distinct = sha1(world, op log)"),
     assumptions=hprop.COMMON_ASSUMPTIONS,
-    quick=(16, 100, 40), thorough=(16, 1000, 60), probes=True,
+    quick=(16, 140, 40), thorough=(16, 1200, 60), probes=True,
     instr_bias={"inject": True, "meddle": True, "raw": True, "raw_kinds": [2, 2, 2, 0, 5, 3], "raw_tclasses": [0, 0, 2, 7, 7, 5], "kinds": [1, 1, 1, 1, 1, 1, 0, 0, 2, 5, 6, 7, 8, 3, 4], "vclasses": [0, 1, 1, 9, 9, 9, 8, 2], "tclasses": [0, 0, 2, 7, 7, 5, 6]},
 ))
 FLOORS = {"quick": {"flag:dispatched_vehicle_redirected": 30, "flag:ran_empty_while_dispatched": 5}, "thorough": {"flag:ran_empty_while_dispatched": 50}}
